@@ -48,7 +48,11 @@ Refs(e) ==
 \* denotes nothing; "ambiguous": some bare reference denotes two columns
 ScopeOf(fr, e) ==
   LET rs == Refs(e) IN
-  IF \E r \in rs : Cardinality(Matches(fr, r.q, r.name)) > 1 THEN "ambiguous"
+  \* inside `group`: a bare name matching both a key column and a column of
+  \* the partition - the book does not say which one is meant
+  IF \E r \in rs : LET m == Matches(fr, r.q, r.name) IN
+                      Cardinality(m) > 1 /\ (\E i \in m : fr[i].key) /\ (\E i \in m : ~fr[i].key) THEN "keyclash"
+  ELSE IF \E r \in rs : Cardinality(Matches(fr, r.q, r.name)) > 1 THEN "ambiguous"
   ELSE IF \E r \in rs : Matches(fr, r.q, r.name) = {} THEN "none"
   ELSE "ok"
 
@@ -250,9 +254,11 @@ TakeGroups(groups, pos, lo, hi) ==     \* pos = position of first row of Head(gr
 \* schema : [t |-> <<"k","a","b">>, ...]
 InitState(ndb) ==
   [ frame |-> <<>>, W |-> [d \in 1 .. ndb |-> {}], dirs |-> <<>>, status |-> "init",
-    known |-> TRUE, win |-> NoWin, grouped |-> FALSE, loose |-> FALSE ]
+    known |-> TRUE, win |-> NoWin, grouped |-> FALSE, loose |-> FALSE, inputs |-> <<>> ]
 
 Err(st)   == [st EXCEPT !.status = "error"]
+\* outcome of a scope check that failed
+Bad(st, sc) == [st EXCEPT !.status = IF sc = "keyclash" THEN "unsup" ELSE "error"]
 Unsup(st) == [st EXCEPT !.status = "unsup"]
 
 \* lift a world transformer (world -> set of worlds) over all instances
@@ -263,7 +269,8 @@ CtxOf(st, w, i) ==
     uniq |-> KeysUnique(w.rows, st.dirs, Nsm(w)), nsm |-> Nsm(w), scalar |-> FALSE ]
 
 ExprsScope(fr, es) ==
-  IF \E i \in Idx(es) : ScopeOf(fr, es[i]) = "ambiguous" THEN "ambiguous"
+  IF \E i \in Idx(es) : ScopeOf(fr, es[i]) = "keyclash" THEN "keyclash"
+  ELSE IF \E i \in Idx(es) : ScopeOf(fr, es[i]) = "ambiguous" THEN "ambiguous"
   ELSE IF \E i \in Idx(es) : ScopeOf(fr, es[i]) = "none" THEN "none" ELSE "ok"
 
 \* name a select/derive item introduces
@@ -290,6 +297,7 @@ From(st, s, dbs, schema) ==
       !.W      = [d \in Idx(dbs) |->
                    { [ns |-> "any", rows |-> [i \in Idx(dbs[d][s.t]) |-> [v |-> dbs[d][s.t][i], key |-> <<>>]]] }],
       !.dirs   = <<>>,
+      !.inputs = << src >>,
       !.status = "ok" ]
 
 \* select / derive: one new value per item and row
@@ -302,7 +310,7 @@ Select(st, s) ==
       keys == SelectSeq([i \in Idx(st.frame) |-> i], LAMBDA i : st.frame[i].key)
       nf == [m \in Idx(s.items) |-> Col(ItemName(s.items[m]), ItemSrc(st.frame, s.items[m]))]
   IN
-  IF sc # "ok" THEN Err(st)
+  IF sc # "ok" THEN Bad(st, sc)
   ELSE IF st.grouped THEN Unsup(st)
   ELSE [ st EXCEPT
       !.frame = Shadow(nf),
@@ -316,7 +324,7 @@ Derive(st, s) ==
       sc == ExprsScope(st.frame, es)
       nf == [m \in Idx(s.items) |-> Col(ItemName(s.items[m]), ItemSrc(st.frame, s.items[m]))]
   IN
-  IF sc # "ok" THEN Err(st)
+  IF sc # "ok" THEN Bad(st, sc)
   ELSE [ st EXCEPT
       !.frame = Shadow(st.frame \o nf),
       !.W = Lift(st, LAMBDA w : { [w EXCEPT !.rows =
@@ -324,7 +332,7 @@ Derive(st, s) ==
                  [i \in Idx(w.rows) |-> [v |-> w.rows[i].v \o vals[i], key |-> w.rows[i].key]]] }) ]
 
 Filter(st, s) ==
-  IF ScopeOf(st.frame, s.e) # "ok" THEN Err(st)
+  IF ScopeOf(st.frame, s.e) # "ok" THEN Bad(st, ScopeOf(st.frame, s.e))
   ELSE
   LET pv(w) == [i \in Idx(w.rows) |-> Eval(s.e, st.frame, w.rows[i].v, CtxOf(st, w, i))]
       undef == \E d \in Idx(st.W) : \E w \in st.W[d] : \E i \in Idx(w.rows) : IsUndef(pv(w)[i])
@@ -344,7 +352,7 @@ Sort(st, s) ==
       resort(w, ns) == [ns |-> ns, rows |->
                           SortRows([i \in Idx(w.rows) |-> [v |-> w.rows[i].v, key |-> kv(w)[i]]], dirs, ns # "large")]
   IN
-  IF ExprsScope(st.frame, es) # "ok" THEN Err(st)
+  IF ExprsScope(st.frame, es) # "ok" THEN Bad(st, ExprsScope(st.frame, es))
   ELSE [ st EXCEPT
       !.dirs = dirs,
       !.loose = st.loose \/ undef,
@@ -372,7 +380,7 @@ Aggregate(st, s) ==
                     r0 == IF w.rows = <<>> THEN [j \in Idx(st.frame) |-> Null] ELSE w.rows[1].v
                 IN [v |-> kvals \o [m \in Idx(es) |-> Eval(es[m], st.frame, r0, c)], key |-> <<>>]
   IN
-  IF ExprsScope(st.frame, es) # "ok" THEN Err(st)
+  IF ExprsScope(st.frame, es) # "ok" THEN Bad(st, ExprsScope(st.frame, es))
   ELSE IF \E m \in Idx(es) : ~HasAgg(es[m]) THEN Unsup(st)
   ELSE [ st EXCEPT
       !.frame = Shadow(nf),
@@ -415,24 +423,41 @@ Group(st, s, dbs, schema) ==
   LET sc == ExprsScope(st.frame, s.by)
       kidx == [m \in Idx(s.by) |-> CHOOSE i \in Matches(st.frame, s.by[m].q, s.by[m].name) : TRUE]
       kset == { kidx[m] : m \in Idx(s.by) }
-      others == SelectSeq([i \in Idx(st.frame) |-> i], LAMBDA i : i \notin kset /\ st.frame[i].name # "")
+      \* The partition is `this.*` minus the keys.  The resolver expands `this.*`
+      \* from its name table (semantic/module.rs insert_frame, resolver/expr.rs
+      \* construct_tuple_from_module): the columns of input number p (0-based)
+      \* form one block with sort key p, a computed/aliased column at (1-based)
+      \* frame position i has sort key i; blocks keep their frame order.
+      oset == { i \in Idx(st.frame) : i \notin kset /\ st.frame[i].name # "" }
+      ipos(src) == IF \E p \in Idx(st.inputs) : st.inputs[p] = src
+                   THEN (CHOOSE p \in Idx(st.inputs) : st.inputs[p] = src) - 1 ELSE -1
+      okey(i) == IF st.frame[i].src # "" THEN ipos(st.frame[i].src) ELSE i
+      before(i, j) == okey(i) < okey(j) \/ (okey(i) = okey(j) /\ i < j)
+      others == SortSeq(SetToSeq(oset), before)
+      \* equal keys of a computed column and an input block: the resolver's
+      \* order then depends on hash-map iteration (see C11); no meaning here
+      tie == \/ \E i, j \in oset : st.frame[i].src = "" /\ st.frame[j].src # "" /\ okey(i) = okey(j)
+             \/ \E i \in oset : st.frame[i].src # "" /\ okey(i) < 0
       perm == kidx \o others
       nk == Len(kidx)
       fr0 == [m \in Idx(perm) |-> [st.frame[perm[m]] EXCEPT !.key = (m <= nk)]]
       \* all (instance, world) pairs, in a fixed order
       dw == FlattenSeq([d \in Idx(st.W) |-> LET ws == SetToSeq(st.W[d]) IN [j \in Idx(ws) |-> [d |-> d, w |-> ws[j]]]])
-      prow(r) == [v |-> [m \in Idx(perm) |-> r.v[perm[m]]], key |-> r.key]
+      \* `group` resets the order: inside a partition no sort is in effect
+      \* until the inner pipeline sorts
+      prow(r) == [v |-> [m \in Idx(perm) |-> r.v[perm[m]]], key |-> <<>>]
       partsOf == [j \in Idx(dw) |-> PartitionRows([i \in Idx(dw[j].w.rows) |-> prow(dw[j].w.rows[i])], nk)]
       nsOf == FlattenSeq([j \in Idx(dw) |-> [p \in Idx(partsOf[j]) |-> dw[j].w.ns]])
       flat == FlattenSeq(partsOf)
-      inner0 == [ st EXCEPT !.frame = fr0, !.grouped = TRUE,
+      inner0 == [ st EXCEPT !.frame = fr0, !.grouped = TRUE, !.dirs = <<>>,
                             !.W = [m \in Idx(flat) |-> { [ns |-> nsOf[m], rows |-> flat[m]] }] ]
       inner1 == RunPipe(inner0, s.pipe, dbs, schema)
       off(j) == SumLens(partsOf, j - 1)
       res(j) == { x \in CrossConcat([p \in Idx(partsOf[j]) |-> inner1.W[off(j) + p]], dw[j].w.ns) : x.ns # "clash" }
       clear(w) == [w EXCEPT !.rows = [i \in Idx(w.rows) |-> [w.rows[i] EXCEPT !.key = <<>>]]]
   IN
-  IF sc # "ok" THEN Err(st)
+  IF sc # "ok" THEN Bad(st, sc)
+  ELSE IF tie THEN Unsup(st)
   ELSE IF \E m \in Idx(s.by) : s.by[m].t # "col" THEN Unsup(st)
   ELSE IF st.grouped THEN Unsup(st)
   ELSE IF inner1.status # "ok" THEN [st EXCEPT !.status = inner1.status]
@@ -487,10 +512,14 @@ Join(st, s, dbs, schema) ==
       strip(rows) == [i \in Idx(rows) |-> [rows[i] EXCEPT !.key = <<>>]]
   IN
   IF r0.status # "ok" THEN [st EXCEPT !.status = r0.status]
-  ELSE IF scope # "ok" THEN Err(st)
+  \* joining a relation under a name the frame already uses (`join u` twice
+  \* without an alias): the book gives no meaning to the resulting names
+  ELSE IF \E i \in Idx(rfr), j \in Idx(st.frame) : rfr[i].src # "" /\ rfr[i].src = st.frame[j].src THEN Unsup(st)
+  ELSE IF scope # "ok" THEN Bad(st, scope)
   ELSE IF s.on.t # "eqcol" /\ HasAgg(s.on) THEN Unsup(st)
   ELSE [ st EXCEPT
       !.frame = fr,
+      !.inputs = st.inputs \o (IF s.alias # "" THEN << s.alias >> ELSE r0.inputs),
       !.known = st.known /\ r0.known,
       !.dirs = IF keepOrder THEN st.dirs ELSE <<>>,
       !.loose = st.loose \/ r0.loose \/ undef,
@@ -508,8 +537,8 @@ AppendT(st, s, dbs, schema) ==
   IF r0.status # "ok" THEN [st EXCEPT !.status = r0.status]
   ELSE IF Len(r0.frame) # Len(st.frame) THEN Err(st)
   ELSE [ st EXCEPT
-      !.frame = [i \in Idx(st.frame) |-> IF st.frame[i].name # "" THEN [st.frame[i] EXCEPT !.src = ""]
-                                         ELSE [r0.frame[i] EXCEPT !.src = ""]],
+      !.frame = [i \in Idx(st.frame) |-> IF st.frame[i].name # "" THEN st.frame[i]
+                                         ELSE [r0.frame[i] EXCEPT !.src = st.frame[i].src]],
       !.dirs = <<>>,
       !.loose = st.loose \/ r0.loose,
       !.W = [d \in Idx(st.W) |->
